@@ -662,6 +662,8 @@ def run(ctx: Ctx) -> None:
     rule_index_keys_stay(ctx)
     rule_reg_create(ctx)
     rule_wire_label_values(ctx)
+    from .c13 import rule_remove_identity_scope
+    rule_remove_identity_scope(ctx)   # identity removal is one of the edits: it visits every identity node
     rule_validate_shape(ctx)
     from .c13 import rule_unwrap_order
     rule_unwrap_order(ctx)   # unwrap() decides the register every expanded gate sits on
@@ -718,6 +720,7 @@ _REPLACE_TABLE = ("        for operation, update_entry in (\n"
 
 
 KNOCKOUTS = [
+    Knockout("remove-identity-stops-at-first-noisy-identity", DAG, sub_once('                if isinstance(self.dag.nodes[node]["op"].noise, NoNoise):\n                    self.remove_op(node)\n', '                if not isinstance(self.dag.nodes[node]["op"].noise, NoNoise):\n                    break\n                self.remove_op(node)\n'), "identity.scope", "leaves its loop"),
     Knockout("remove-edge-without-key", DAG, sub_once("        self.dag.remove_edges_from([edge_to_remove])", "        self.dag.remove_edge(edge_to_remove[0], edge_to_remove[1])"), "edge.keys", "without the key"),
     Knockout("add-classical-wire-by-position", DAG, sub_once('] + [f"c{c}_out" for c in operation.c_registers]', '] + [f"c{i}_out" for i in range(len(operation.c_registers))]'), "wire.label-values", "a position in"),
     Knockout("insert-at-registers-sorted-without-their-types", DAG, sub_once("        register, reg_type = zip(\n            *sorted(zip(operation.q_registers, operation.q_registers_type))\n        )\n        for i in range(len(register)):\n            self._add_reg_if_absent(\n                register=register[i],\n                reg_type=reg_type[i],\n            )\n\n        assert len(edges)", "        for register, reg_type in zip(sorted(operation.q_registers), operation.q_registers_type):\n            self._add_reg_if_absent(register=register, reg_type=reg_type)\n\n        assert len(edges)"), "zip.pairing", "parallel sequence"),
